@@ -56,10 +56,15 @@ Definition corr_bit (sc : scenario) (sched : list choice) (obs : list stepobs) (
 Definition cnt_items (p : item -> bool) (l : list item) : nat := length (filter p l).
 Definition for_uid (u : Z) (i : item) : bool := let '(v, _, _) := i in v =? u.
 
+(* An advance() hands a task on when it PUSHES it to the next component or
+   advances it to a final state.  A publish-only advance to the non-final state
+   AGENT_STAGING_OUTPUT_PENDING (push=False) hands nothing on: nobody will ever
+   pick the task up. *)
+Definition counts (s : est) (push : bool) : bool := match s with SStaging => push | _ => true end.
 Fixpoint n_adv (st : est) (u : Z) (ems : list emission) : nat :=
   match ems with
   | [] => 0
-  | EAdv s items _ :: r => (Nat.add ((if est_eqb s st then cnt_items (for_uid u) items else 0)) (n_adv st u r))
+  | EAdv s items p :: r => (Nat.add ((if est_eqb s st && counts s p then cnt_items (for_uid u) items else 0)) (n_adv st u r))
   | _ :: r => n_adv st u r
   end.
 Fixpoint n_uns (u : Z) (ems : list emission) : nat :=
@@ -75,14 +80,14 @@ Definition n_hand (u : Z) (ems : list emission) : nat :=
 Fixpoint n_collected (u : Z) (ems : list emission) : nat :=
   match ems with
   | [] => 0
-  | EAdv SStaging items _ :: r =>
+  | EAdv SStaging items true :: r =>
       (Nat.add (cnt_items (fun i => let '(v, c, _) := i in (v =? u) && match c with Some _ => true | None => false end) items) (n_collected u r))
   | _ :: r => n_collected u r
   end.
 Fixpoint n_canceled (u : Z) (ems : list emission) : nat :=
   match ems with
   | [] => 0
-  | EAdv SStaging items _ :: r =>
+  | EAdv SStaging items true :: r =>
       (Nat.add (cnt_items (fun i => let '(v, _, t) := i in (v =? u) && tgt_eqb t TgCanceled) items) (n_canceled u r))
   | EAdv SCanceled items _ :: r => (Nat.add (cnt_items (for_uid u) items) (n_canceled u r))
   | _ :: r => n_canceled u r
